@@ -40,6 +40,8 @@ Section G.
 Variable H : Z -> Z -> Z.
 Variable fh : Z -> Z.
 Hypothesis H_inj : forall a b a' b', H a b = H a' b' -> a = a' /\ b = b'.
+Variable parent : Z -> Z.
+Variable g : Z.
 Variable p : Z.
 Variable c : lcfg.
 Variable tfilt : Z -> Z.
@@ -49,7 +51,7 @@ Notation thd := (thd H fh).
 Notation tcps := (tcps H fh).
 Notation tmsg := (tmsg H fh).
 Notation committed_true := (committed_true H fh).
-Notation linv := (linv H fh p c).
+Notation linv := (linv H fh parent g p c).
 
 (* the store holds nothing that contradicts the true checkpoints *)
 Lemma store_agrees_true a hs : committed_true a -> zlen (abl a) < 1000000 -> 0 <= hs < 1000000 ->
@@ -80,7 +82,7 @@ Lemma hon_serves_avail s d :
                    (tcps (abl (l_a s)) (tipH s)) tfilt.
 Proof.
   intros Hinv Hph Ht Hh Hav j Hj Hfd. cbv zeta.
-  destruct (li_chain _ _ _ _ _ Hinv) as [Hnd Hlen].
+  destruct (li_chain _ _ _ _ _ _ _ Hinv) as [Hnd Hlen].
   set (a := l_a s) in *. set (bl := abl a) in *.
   assert (HtH : tipH s = zlen bl - 1) by reflexivity.
   assert (Hjl : Z.of_nat j < tipH s / INTERVAL).
@@ -112,13 +114,13 @@ Proof.
 Qed.
 
 (* ---------- an attempt makes progress ---------- *)
-Lemma attempt_with_progress s d refetch cache cbl flag s' code asked bans :
+Lemma attempt_with_progress s d refetch cache cst cbl flag s' code asked bans :
   linv s -> hon_hdrs H fh p c tfilt s d -> avail_hdrs H fh c s d ->
   peer_hard_bad (c_hard c) (tcps (abl (l_a s)) (tipH s)) = false ->
   eff_phase s <> PTip -> INTERVAL <= tipH s ->
   snd (lists_of c s (tipH s) (tipX s) d) = cache ->
   (forall l, In (p, l) cache <-> l = tcps (abl (l_a s)) (tipH s)) ->
-  attempt_with H c s (tipH s) (tipX s) d refetch cache cbl flag = (s', (code, asked, bans)) ->
+  attempt_with H c s (tipH s) (tipX s) d refetch cache cst cbl flag = (s', (code, asked, bans)) ->
   ((code = 3 \/ code = 6) /\ l_cache s' = cache /\
      (length (l_conn s') <= length (l_conn s))%nat) \/
   (code = 2 /\ l_cache s' = [] /\
@@ -127,7 +129,7 @@ Lemma attempt_with_progress s d refetch cache cbl flag s' code asked bans :
      exists q, In q bans /\ In q (List.map fst (cap (tipH s) cache))).
 Proof.
   intros Hinv Hhd Hav Hhard Hph Ht Hsnd Hiff Hatt.
-  pose proof Hinv as [[Hnd Hlen] Htrue Hgen Hnb Hcb Hcache Hleg Hcp Hphase].
+  pose proof Hinv as [[Hnd Hlen] Hpar Hhead Htrue Hgen Hnb Hcb Hcache Hleg Hcp Hphase].
   set (a := l_a s) in *. set (bl := abl a) in *.
   unfold attempt_with in Hatt. rewrite Hleg in Hatt. fold a in Hatt.
   destruct (refetch && (length cache =? 0)%nat) eqn:E0.
@@ -193,12 +195,12 @@ Proof.
     destruct (hlen (l_a s) <? INTERVAL) eqn:El; [injection Hw as <- <-; cbn; unfold phi; cbn; lia|].
     unfold attempt in Hw. change (hlen (l_a s)) with (tipH s) in *.
     change (default 0 (last (abl (l_a s)))) with (tipX s) in *.
-    pose proof (attempt_with_flag H c _ _ _ _ _ _ _ _ _ _ Hw) as Hfl. rewrite Hflag in Hfl. symmetry in Hfl.
-    pose proof (stale_flag_zero c _ _ _ (li_cp _ _ _ _ _ Hinv) Hfl) as Hfresh.
+    pose proof (attempt_with_flag H c _ _ _ _ _ _ _ _ _ _ _ Hw) as Hfl. rewrite Hflag in Hfl. symmetry in Hfl.
+    pose proof (stale_flag_zero c _ _ _ (li_cp _ _ _ _ _ _ _ Hinv) Hfl) as Hfresh.
     assert (Ht : INTERVAL <= tipH s) by lia.
-    pose proof (lists_iff H fh p c s d Hinv Hcp Ht Hfresh) as Hiff.
+    pose proof (lists_iff H fh parent g p c s d Hinv Hcp Ht Hfresh) as Hiff.
     destruct o as [[code asked] bans].
-    destruct (attempt_with_progress s d _ _ _ _ s' code asked bans Hinv Hhd Hav Hhard Hph Ht eq_refl Hiff Hw)
+    destruct (attempt_with_progress s d _ _ _ _ _ s' code asked bans Hinv Hhd Hav Hhard Hph Ht eq_refl Hiff Hw)
       as [([-> | ->] & Hc & Hl)|(-> & Hc & Hl & _ & q & Hqb & Hqk)]; cbn; unfold phi.
     - destruct (l_cache s'), (l_cache s); lia.
     - destruct (l_cache s'), (l_cache s); lia.
@@ -206,7 +208,7 @@ Proof.
       apply in_map_iff in Hqk as ([q' lq] & Eq & Hqk). cbn in Eq. subst q'.
       apply in_cap in Hqk as (l0 & Hin0 & _ & _).
       unfold lists_of in Hin0. cbn [snd] in Hin0.
-      destruct (min_checkpoint_height (l_cache s) <? tipH s) eqn:Er.
+      destruct (refetch_cond c s (tipH s) (tipX s)) eqn:Er.
       + (* the lists were fetched now: their owners are connected *)
         destruct (accept_cp_keys _ _ _ _ _ Hin0) as (r & Hrr & Hrq).
         apply filter_In in Hrr as [_ Hrr]. rewrite Hrq in Hrr. apply mem_In in Hrr.
@@ -217,8 +219,8 @@ Proof.
         pose proof (filter_len_le (fun q0 => negb (mem q0 bans)) (l_conn s)) as Hle.
         destruct (l_cache s); [destruct Hin0|]. lia. }
   destruct (eff_phase s) as [|lh lx| |] eqn:Eph; [by apply Hwait| |by apply Hwait|].
-  - by destruct (eff_phase_retry H fh p c s lh lx Hinv).
-  - revert Hr. unfold tip_round. cbn [set_ph l_a l_conn l_cache l_banned l_synced l_cache_bl l_flag].
+  - by destruct (eff_phase_retry H fh parent g p c s lh lx Hinv).
+  - revert Hr. unfold tip_round. cbn [set_ph l_a l_conn l_cache l_cache_stop l_banned l_synced l_cache_bl l_flag].
     destruct (zlen (afl (l_a s)) =? zlen (abl (l_a s))); [intros [= <- <-]; cbn; unfold phi; cbn; lia|].
     destruct (get_uncheckpointed _ _ _) as [bans r]. cbn [do_ban l_conn l_banned].
     pose proof (filter_len_le (fun q0 => negb (mem q0 bans)) (l_conn s)) as Hle.
@@ -232,7 +234,7 @@ Qed.
    a new connection can give them back. *)
 Theorem lrun_fails_bounded evs : forall s,
   linv s ->
-  hon_run H p c s evs (fun s e => ev_ok H fh p c tfilt s e /\
+  hon_run H p c s evs (fun s e => ev_ok H fh parent p c tfilt s e /\
                          match e with ERound d => avail_hdrs H fh c s d | _ => True end) ->
   l_flag (lrun H c s evs) = 0 ->
   (nfail (louts H c s evs) + phi (lrun H c s evs) <=
@@ -241,7 +243,7 @@ Proof.
   induction evs as [|e evs IH]; intros s Hinv Hrun Hflag; [cbn; lia|].
   cbn [lrun fold_left] in *. destruct Hrun as [[[Hwf Hhon] Hav] Hrun].
   pose proof (lrun_flag_zero H c evs _ Hflag) as Hf1.
-  pose proof (lstep_inv H fh H_inj p c tfilt s e Hinv Hwf Hhon Hf1) as Hinv1.
+  pose proof (lstep_inv H fh H_inj parent g p c tfilt s e Hinv Hwf Hhon Hf1) as Hinv1.
   specialize (IH _ Hinv1 Hrun Hflag). unfold lrun, nconnect in IH.
   destruct e as [h xs syn|q|q|d]; cbn [louts nconnect List.filter] in *.
   - change (phi (lstep H c s (EChain h xs syn))) with (phi s) in IH. unfold nconnect in *. cbn [List.filter]. lia.
@@ -394,12 +396,14 @@ Variable H : Z -> Z -> Z.
 Variable fh : Z -> Z.
 Hypothesis H_inj : forall a b a' b', H a b = H a' b' -> a = a' /\ b = b'.
 Hypothesis H_nz : forall a b, H a b <> 0.
+Variable parent : Z -> Z.
+Variable g : Z.
 Variable p : Z.
 Variable c : lcfg.
 Variable tfilt : Z -> Z.
 
 Notation tcps := (tcps H fh).
-Notation linv := (linv H fh p c).
+Notation linv := (linv H fh parent g p c).
 
 (* When the attempt found a list that reaches beyond the interval of the
    filter tip, the fetch did not panic, and an answer of the honest peer to
@@ -413,24 +417,24 @@ Lemma round_commits s d s' asked bans :
   flen2 (l_a s) < flen2 (l_a s').
 Proof.
   intros Hinv (Hconn & Hcp & Hhd & Har & Hhard) Hph Hr Hflag Ht Hlong (ar & Harin & Hpeer & Haq).
-  pose proof Hinv as [[Hnd Hlen] Htrue Hgen Hnb Hcb Hcache Hleg Hcpn Hphase].
+  pose proof Hinv as [[Hnd Hlen] Hpar Hhead Htrue Hgen Hnb Hcb Hcache Hleg Hcpn Hphase].
   unfold round in Hr. destruct (l_panic s); [discriminate|].
   change (match l_ph s with PDecide => decide_ph s | ph => ph end) with (eff_phase s) in Hr.
   assert (Hw : wait_round H c s d = (s', (3, asked, bans))).
-  { destruct (eff_phase s) as [|lh lx| |] eqn:Eph; try done. by destruct (eff_phase_retry H fh p c s lh lx Hinv). }
+  { destruct (eff_phase s) as [|lh lx| |] eqn:Eph; try done. by destruct (eff_phase_retry H fh parent g p c s lh lx Hinv). }
   clear Hr. unfold wait_round in Hw.
   destruct (negb (wait_cond s)); [discriminate|].
   change (hlen (l_a s)) with (tipH s) in Hw. replace (tipH s <? INTERVAL) with false in Hw by lia.
   unfold attempt in Hw. change (default 0 (last (abl (l_a s)))) with (tipX s) in *.
-  pose proof (attempt_with_flag H c _ _ _ _ _ _ _ _ _ _ Hw) as Hfl. rewrite Hflag in Hfl. symmetry in Hfl.
+  pose proof (attempt_with_flag H c _ _ _ _ _ _ _ _ _ _ _ Hw) as Hfl. rewrite Hflag in Hfl. symmetry in Hfl.
   pose proof (stale_flag_zero c _ _ _ Hcpn Hfl) as Hfresh.
-  pose proof (lists_iff H fh p c s d Hinv Hcp Ht Hfresh) as Hiff.
+  pose proof (lists_iff H fh parent g p c s d Hinv Hcp Ht Hfresh) as Hiff.
   unfold attempt_with in Hw. rewrite Hleg in Hw.
   destruct (_ && _); [discriminate|].
   destruct (resolve_of H c s (tipH s) (tipX s) d) as [bans0 res] eqn:ER.
   cbn [do_ban l_conn l_banned] in Hw.
   destruct res as [[|x l]|]; [discriminate| |discriminate].
-  destruct (resolve_good H fh p c tfilt s d _ bans0 x l Hinv Hhd Hhard Hph Ht eq_refl Hiff ER) as [Hgood Hpb].
+  destruct (resolve_good H fh parent g p c tfilt s d _ bans0 x l Hinv Hhd Hhard Hph Ht eq_refl Hiff ER) as [Hgood Hpb].
   destruct (get_checkpointed H (c_genesis c) (l_a s) (x :: l) _) as [[bans2 a'] pan] eqn:EG.
   cbn [do_ban l_conn l_banned] in Hw. destruct pan; [discriminate|]. injection Hw as <- _ _. cbn [l_a].
   specialize (Hlong x l eq_refl). unfold flen2 in *.
@@ -464,10 +468,12 @@ Section G3.
 Variable H : Z -> Z -> Z.
 Variable fh : Z -> Z.
 Hypothesis H_inj : forall a b a' b', H a b = H a' b' -> a = a' /\ b = b'.
+Variable parent : Z -> Z.
+Variable g : Z.
 Variable p : Z.
 Variable c : lcfg.
 Variable tfilt : Z -> Z.
-Notation linv := (linv H fh p c).
+Notation linv := (linv H fh parent g p c).
 
 (* Every round of the checkpoint phase that has something to do finds a
    checkpoint list (and runs the fetch), or bans a peer that is connected or
@@ -480,30 +486,30 @@ Lemma round_progress s d s' code asked bans :
    exists q, In q bans /\ (In q (l_conn s) \/ In q (List.map fst (l_cache s)))).
 Proof.
   intros Hinv Hhon Hav Hph Hr Hflag.
-  pose proof (round_inv H fh H_inj p c tfilt s d s' _ Hinv Hhon Hr Hflag) as Hinv'.
+  pose proof (round_inv H fh H_inj parent g p c tfilt s d s' _ Hinv Hhon Hr Hflag) as Hinv'.
   destruct Hhon as (Hconn & Hcp & Hhd & Har & Hhard).
   unfold round in Hr. destruct (l_panic s); [injection Hr as _ <- _ _; tauto|].
   change (match l_ph s with PDecide => decide_ph s | ph => ph end) with (eff_phase s) in Hr.
   assert (Hw : wait_round H c s d = (s', (code, asked, bans))).
-  { destruct (eff_phase s) as [|lh lx| |] eqn:Eph; try done. by destruct (eff_phase_retry H fh p c s lh lx Hinv). }
+  { destruct (eff_phase s) as [|lh lx| |] eqn:Eph; try done. by destruct (eff_phase_retry H fh parent g p c s lh lx Hinv). }
   clear Hr. unfold wait_round in Hw.
   destruct (negb (wait_cond s)); [injection Hw as _ <- _ _; tauto|].
   destruct (hlen (l_a s) <? INTERVAL) eqn:El; [injection Hw as _ <- _ _; tauto|].
   unfold attempt in Hw. change (hlen (l_a s)) with (tipH s) in *.
   change (default 0 (last (abl (l_a s)))) with (tipX s) in *.
-  pose proof (attempt_with_flag H c _ _ _ _ _ _ _ _ _ _ Hw) as Hfl. rewrite Hflag in Hfl. symmetry in Hfl.
-  pose proof (stale_flag_zero c _ _ _ (li_cp _ _ _ _ _ Hinv) Hfl) as Hfresh.
+  pose proof (attempt_with_flag H c _ _ _ _ _ _ _ _ _ _ _ Hw) as Hfl. rewrite Hflag in Hfl. symmetry in Hfl.
+  pose proof (stale_flag_zero c _ _ _ (li_cp _ _ _ _ _ _ _ Hinv) Hfl) as Hfresh.
   assert (Ht : INTERVAL <= tipH s) by lia.
-  pose proof (lists_iff H fh p c s d Hinv Hcp Ht Hfresh) as Hiff.
-  destruct (attempt_with_progress H fh p c tfilt s d _ _ _ _ s' code asked bans Hinv Hhd Hav Hhard Hph Ht eq_refl Hiff Hw)
+  pose proof (lists_iff H fh parent g p c s d Hinv Hcp Ht Hfresh) as Hiff.
+  destruct (attempt_with_progress H fh parent g p c tfilt s d _ _ _ _ _ s' code asked bans Hinv Hhd Hav Hhard Hph Ht eq_refl Hiff Hw)
     as [([-> | ->] & _)|(-> & Hc & Hl & Hbn & q & Hqb & Hqk)]; [tauto|tauto|].
   right. right. right. split; [done|]. split; [done|]. split.
-  - intros Hpb. apply (li_notbanned _ _ _ _ _ Hinv'). rewrite Hbn, in_app_iff. tauto.
+  - intros Hpb. apply (li_notbanned _ _ _ _ _ _ _ Hinv'). rewrite Hbn, in_app_iff. tauto.
   - exists q. split; [done|].
     apply in_map_iff in Hqk as ([q' lq] & Eq & Hqk). cbn in Eq. subst q'.
     apply in_cap in Hqk as (l0 & Hin0 & _ & _).
     unfold lists_of in Hin0. cbn [snd] in Hin0.
-    destruct (min_checkpoint_height (l_cache s) <? tipH s).
+    destruct (refetch_cond c s (tipH s) (tipX s)).
     + left. destruct (accept_cp_keys _ _ _ _ _ Hin0) as (r & Hrr & Hrq).
       apply filter_In in Hrr as [_ Hrr]. rewrite Hrq in Hrr. by apply mem_In.
     + right. apply in_map_iff. by exists (q, l0).
